@@ -113,8 +113,16 @@ def one_case(ctx, rng, n, big=False):
         return None
     sigflag = rng.random() < 0.8
     dedup = rng.random() < 0.7
+    twins = (not big) and rng.random() < 0.15
+    if twins:
+        # events that differ below the precision of the file: written without duplicate removal they stay two library
+        # entries, the default read() merges them (the signature it stores must still be the file's)
+        a = rng.choice([1e5, -2.5e5, 123456.789])
+        for amp in (a, a * (1 + 1e-10)):
+            seq.add_block(pp.make_trapezoid('x', amplitude=amp, rise_time=1e-4, flat_time=5e-4, fall_time=1e-4, system=pp.Opts(max_grad=1e9, max_slew=1e12)))
+        sigflag, dedup = True, False
     follow = [(rng.choice(['same', 'reread']), rng.random() < 0.5, rng.random() < 0.7) for _ in range(rng.choice([0, 1, 2]))]
-    case = {'index': n, 'big': big, 'create_signature': sigflag, 'remove_duplicates': dedup, 'blocks': len(stored),
+    case = {'index': n, 'big': big, 'create_signature': sigflag, 'remove_duplicates': dedup, 'blocks': len(stored), 'near_twin_events': twins,
             'follow_up_writes': follow}
     # file names with and without the .seq suffix (write() appends it when missing), definitions with non-ASCII text
     name = rng.choice(['a.seq', 'a.seq', 'scan', 'scan.v2', 'b.SEQ.seq', 'name with space.seq'])
@@ -151,7 +159,7 @@ def one_case(ctx, rng, n, big=False):
         data = open(fn, 'rb').read()
         s2, fresh = reader(ctx, rng, big)
         ropts = {}
-        if rng.random() < 0.3:
+        if rng.random() < 0.3 and not twins:
             ropts['remove_duplicates'] = False
         if rng.random() < 0.15:
             ropts['detect_rf_use'] = True
